@@ -918,7 +918,10 @@ def is_temporary(a):
     """the array is an expression result that nothing else refers to (so that whether numpy hands out a view or a copy of it cannot be observed)"""
     st = cur()
     c = st.heap.get(a.sid)
-    return a.sid not in st.named and a.sid not in st.origin and not (c is not None and c.meta.get("input"))
+    # allocated while evaluating the CURRENT statement and never bound since (cells from earlier statements, loop summaries, inputs
+    # and defaults are not temporaries, whatever else is known about them)
+    return a.sid > getattr(st, "stmt_mark", 1 << 62) and a.sid not in st.named and a.sid not in st.origin \
+        and not (c is not None and c.meta.get("input"))
 
 
 def _check_storable(a):
